@@ -5,6 +5,9 @@
 -/
 import Rox.Props.C04Base
 import Rox.Lemmas.Decode
+import Rox.Lemmas.MirrorAll
+import Rox.Lemmas.GrammarTables
+import Rox.Props.C01
 
 namespace Rox.Props.C04
 open Rox Rox.Spec Rox.Lemmas
@@ -27,5 +30,23 @@ theorem text_run_decoded (T : Tables) (txt : Bytes) (lower : Token → Ctx → R
     (if decodePieces ps = [] then c' = c
      else c.appendText (.owned (decodePieces ps)) range = .ok c') :=
   processText_decodes T txt lower c c' text range hr hs hd ps hp hamp h
+
+/-- **Every text node of every accepted input is the decoding of its run** (every valid UTF-8 input,
+`allow_dtd = false`): the text nodes of the tree are exactly the maximal runs of character data and
+CDATA sections of the abstract document the input is the concrete syntax of — one node per run,
+nothing dropped, duplicated, reordered or split —, each holding `decodeText` of the character data
+(§2.11 line ends on the literal parts, references replaced by the denoted character, a referenced
+CR or LF kept) concatenated with `lineEnds` of the CDATA sections (`Rox.Spec.Mirror.treeKids`);
+white-space-only runs inside the root element are preserved. This is `C03.accepted_tree_mirrors`
+read for its text nodes. -/
+theorem accepted_text_runs_decoded (txt : Bytes) (hv : ValidUtf8 txt) (opt : Opt)
+    (hdtd : opt.allowDtd = false) (d : Doc) (h : parse Generated.tables txt opt = .ok d) :
+    ∃ x : Rox.Spec.Grammar.GDoc, Rox.Spec.Grammar.GDocWf Generated.tables x ∧
+      Rox.Spec.Mirror.DocNormal Generated.tables x ∧ Rox.Spec.Grammar.RDoc Generated.tables x txt ∧
+      d.nodes.toList.map (Rox.Spec.Mirror.viewM d) =
+        (none, Rox.Spec.Canon4.YKind.root) ::
+          Rox.Spec.Canon4.expectAllY 0 1 (Rox.Spec.Mirror.docTree x) :=
+  Rox.Lemmas.accepted_tree_mirrors Generated.tables C01.generated_tables_ok
+    Rox.Lemmas.generated_tables_grammar txt hv opt hdtd d h
 
 end Rox.Props.C04
